@@ -102,6 +102,19 @@ claim("C17", "DESIGN.md section 4 C17 + section 11",
       "(method-form operator calls carry no keywords - the code drops them, which is outside the stated form seq.Op(args...)); first-order reference semantics.",
       "Operator list regenerated from source and cross-checked against the imported module; pyref_lite is used only to find failing inputs.")
 
+claim("C05", "DESIGN.md section 4 C04/C05 + section 11",
+      "proof (partial): Coq theorems over the executable model of helper inlining (visit_Name / _resolve_called_lambdas with fixes F06, F07, FC2, FC4-FC6): inline_leaves_by_name (full: a helper that "
+      "cannot be inlined stays a call with the same arguments), inline_sem_partial (Python call semantics - positional binding, call by value - is preserved on the fragment where no lambda or "
+      "comprehension binder stays inside an inlined body, or the call has constant arguments; the capture bail-out never fires inside that fragment). Bodies with staying binders and non-constant "
+      "arguments are covered by exact correspondence on generated Python programs and by the value oracle against the real callable.",
+      "As C04; each helper's Lambda and its own closure snapshot are built by the generator from the helper's own text.")
+claim("C06", "DESIGN.md section 4 C06 + section 11",
+      "proof: Coq theorems over the executable model of resolve_syntatic_sugar (with fix F17): sugar_sem (every backend, environment and nesting: single-for comprehensions lower to Where/Select chains "
+      "that mean what Python computes, against Base/Eval.v, itself compared with CPython on each run), sugar_complete (no comprehension node left at any depth), dataclass_binds (= an independent "
+      "specification of Python's positional-then-keyword binding: same bindings or both refuse), sugar_refuses (tuple targets / async => ValueError), sugar_total (never an internal error on "
+      "well-formed generators); the pinned binding is refuted inside Coq. Multi-for comprehensions and error messages are compared, not claimed; constructor parameters assumed positional-or-keyword.",
+      "Hypothesis of sugar_sem: the operator list contains Select and Where. Generator expressions are forced eagerly. CPython 3.12.1's PEP 709 inlining corner cases are excluded from the semantic comparison and counted.")
+
 ALL = ["C%02d" % i for i in range(1, 21)]
 PENDING = "not yet claimed: model, correspondence and proofs for this property are still being integrated (DESIGN.md section 10 staging)"
 
